@@ -7,7 +7,7 @@ RULE = ("Hypothesis draws RunSpecs weighted towards ties (constant / plateau obj
         "tasks and pool modes. Oracle (validity predicate, any tie-break accepted): best_solution's (position, "
         "cost) equals that of some agent of evolution[-1] and no agent of evolution[-1] has a strictly better cost "
         "in the task's direction. Non-trivial = final generation with >= 2 distinct costs or a tie for the best "
-        "cost; distinct = SHA-256 of the spec.")
+        "cost; distinct = SHA-256 of the spec. About 15 % of the cases make the judged run on an optimizer instance that has already been used for an optimize() call on another task (reused instance).")
 ASSUMPTIONS = ["runs that raise are C06's business", "NaN costs compare as never-better"]
 BUDGET = {"quick": 25, "thorough": 400}
 FAM = ("sphere", "abssum", "cosprod", "linear", "altlinear", "constant", "plateau", "plateau")
